@@ -35,7 +35,15 @@ func (v *VMValue) ToJSONRaw(save map[*VMValue]bool) ([]byte, error) {
 		x.TypeId = v.TypeId
 		x.Value.Expr = cd.Expr
 		if cd.Attrs != nil {
-			attrJson, err := cd.Attrs.ToJSON()
+			if save == nil {
+				save = map[*VMValue]bool{}
+			}
+			if _, exists := save[v]; exists {
+				return nil, errors.New("值错误: 序列化时检测到循环引用")
+			}
+			save[v] = true
+			attrJson, err := cd.Attrs.toJSONRaw(save)
+			delete(save, v)
 			if err != nil {
 				return nil, err
 			}
@@ -60,6 +68,7 @@ func (v *VMValue) ToJSONRaw(save map[*VMValue]bool) ([]byte, error) {
 			}
 			lst = append(lst, json_data)
 		}
+		delete(save, v) // save 只记录当前路径上的值，同一个值被引用多次(非循环)是允许的
 
 		lst2 := [][]byte{[]byte(`{"t":6,"v":{"list":[`)}
 		lst2 = append(lst2, bytes.Join(lst, []byte(",")))
@@ -77,7 +86,8 @@ func (v *VMValue) ToJSONRaw(save map[*VMValue]bool) ([]byte, error) {
 		save[v] = true
 		cd := v.MustReadDictData()
 
-		dictJson, err := cd.Dict.ToJSON()
+		dictJson, err := cd.Dict.toJSONRaw(save)
+		delete(save, v)
 		if err != nil {
 			return nil, err
 		}
